@@ -37,6 +37,7 @@ def check_cfg(cfg):
         out["fail"] = {"kind": "syntax-error", "msg": str(e), "extents": None, "mask": None, "text": text}
         return out
     extra = cfg.get("check", {})
+    out["fails"] = []
     for ext in cfg["extents"]:
         r = X.sweep(text, spec, ext, sizes=cfg.get("sizes"), policies=tuple(cfg.get("policies", ("M",))), **extra)
         out["n"] += r["n"]
@@ -45,22 +46,33 @@ def check_cfg(cfg):
         out["distinct_outputs"] += r["distinct_outputs"]
         for p, k in r["per_policy"].items():
             out["per_policy"][p] = out["per_policy"].get(p, 0) + k
-        if r["fails"] and out["fail"] is None:
+        if r["fails"]:
             mask, kind, msg = r["fails"][0]
             out["status"] = "fail"
-            out["fail"] = {"kind": kind, "msg": msg, "extents": ext, "mask": mask, "text": text,
-                           "nfail": len(r["failmask"]), "bitmap": X.bitmap_hex(r["failmask"], r["patterns"]),
-                           "kinds": sorted({k for _, k, _ in r["fails"]})}
+            f = {"kind": kind, "msg": msg, "extents": ext, "mask": mask, "text": text,
+                 "nfail": len(r["failmask"]), "bitmap": X.bitmap_hex(r["failmask"], r["patterns"]),
+                 "kinds": sorted({k for _, k, _ in r["fails"]})}
+            out["fails"].append(f)
+            if out["fail"] is None:
+                out["fail"] = f
     return out
 
 
-def violation_from(prop, cfg, res):
-    f = res["fail"]
+def cfg_key(spec, extents, sizes=None):
+    import hashlib
+    k = json.dumps({"exprs": [B.render_expr(e) for e in spec["exprs"]], "mapping": spec.get("mapping"), "decl": spec["decl"],
+                    "extents": extents, "sizes": sizes}, sort_keys=True)
+    return hashlib.sha1(k.encode()).hexdigest()[:16]
+
+
+def violation_from(prop, cfg, res, f=None):
+    f = f or res["fail"]
     spec = cfg["spec"]
     sig = {"kind": f["kind"], "exprs": [B.render_expr(e) for e in spec["exprs"]],
            "mapping": json.dumps(spec.get("mapping"), sort_keys=True), "decl": json.dumps(spec["decl"], sort_keys=True),
            "extents": json.dumps(f["extents"], sort_keys=True) if f["extents"] else None,
            "bitmap": f.get("bitmap")}
+    sig["cfgkey"] = cfg_key(spec, f["extents"], cfg.get("sizes"))
     if f["kind"] in ("exception", "compile-exception"):
         sig["error"] = f["msg"].split(" (emitted line")[0]
     if cfg.get("sizes"):
@@ -80,7 +92,7 @@ def replay_cfg(prop, case):
         cfg["extents"] = [case["extents"]]
     res = check_cfg(cfg)
     if res["status"] == "fail":
-        return [violation_from(prop, cfg, res)]
+        return [violation_from(prop, cfg, res, f) for f in (res.get("fails") or [res["fail"]])]
     return []
 
 
@@ -100,7 +112,8 @@ def aggregate(work, results, prop, level="exploration", rule=""):
         if r["status"] == "rejected":
             rejected[r["reject"]] = rejected.get(r["reject"], 0) + 1
         elif r["status"] == "fail":
-            viols.append(violation_from(prop, cfg, r))
+            for f in (r.get("fails") or [r["fail"]]):
+                viols.append(violation_from(prop, cfg, r, f))
     cov = {
         "evaluations": n,
         "configurations": len(work),
